@@ -13,3 +13,18 @@ func VerifAgeLastCheckC12(b Blob, d time.Duration) {
 		bb.lastCheckMu.Unlock()
 	}
 }
+
+// VerifFetcherC12 returns the handler-provided Fetcher a blob currently uses (nil for the default HTTP fetcher).
+func VerifFetcherC12(b Blob) Fetcher {
+	bb, ok := b.(*blob)
+	if !ok {
+		return nil
+	}
+	bb.fetcherMu.Lock()
+	f := bb.fetcher
+	bb.fetcherMu.Unlock()
+	if rf, ok := f.(*remoteFetcher); ok {
+		return rf.r
+	}
+	return nil
+}
